@@ -57,4 +57,11 @@ CHECKS = {
         "note": "Trusted: kernel rename/O_EXCL semantics; strace for the syscall-level enumeration (hook-level enumeration does not need it). Needs the crash-point hook (cfg chialisp_verif).",
         "technique": "TLA+ spec (AtomicWrite) + TLC all interleavings and crash points + fault injection at hook/syscall points + trace validation",
     },
+    "C18": {
+        "level": "model_checking",
+        "text": "Includes.tla models first-match resolution over a search path, the compiler's recursive walk over include/embed-file forms and the listing's walk; TLC asserts that every file read is listed and every listed name is the first match, over all small file systems and search-path orders; configurations are materialised on disk, gather_dependencies is called and the files a real compilation opens are observed with strace; random deeper graphs are trace-validated.",
+        "design_ref": "DESIGN.md section 4 C18",
+        "note": "Trusted: strace's view of successful opens under the scratch directory. Only successful compilations are judged.",
+        "technique": "TLA+ spec (Includes) + TLC exhaustive small file systems + replay on a real directory tree with syscall observation + trace validation",
+    },
 }
